@@ -75,6 +75,26 @@ class C13(Prop):
         out['fp_tnp'] = [fl(np.asarray(x)[:, 0], np) for x in t2]
         sdsd = cv.SDR_SDSD(s, d, r)
         out['sdsd'] = [fl(x, np)[0] for x in sdsd]
+        # the conversions must leave the caller's vectors and angles alone (a pair that is converted twice describes one source)
+        mutated = []
+        for nme, fn, args in (('FP_SDR', cv.FP_SDR, [np.array(n2, dtype=float).copy(), np.array(n1, dtype=float).copy()]),
+                              ('FP_SDR(swapped)', cv.FP_SDR, [np.array(n1, dtype=float).copy(), np.array(n2, dtype=float).copy()]),
+                              ('FP_SDR(1-d)', cv.FP_SDR, [np.array(f1, dtype=float), np.array(f2, dtype=float)]),
+                              ('FP_SDR(1-d swapped)', cv.FP_SDR, [np.array(f2, dtype=float), np.array(f1, dtype=float)]),
+                              ('FP_SDR(matrix)', cv.FP_SDR, [np.matrix(f2).T, np.matrix(f1).T]),
+                              ('FP_SDR(matrix swapped)', cv.FP_SDR, [np.matrix(f1).T, np.matrix(f2).T]),
+                              ('FP_TNP', cv.FP_TNP, [np.matrix(f2).T, np.matrix(f1).T]),
+                              ('TP_FP', cv.TP_FP, [np.array(T, dtype=float).copy(), np.array(P, dtype=float).copy()]),
+                              ('SDR_SDR', cv.SDR_SDR, [np.array([s, 1.0]), np.array([d, 0.5]), np.array([r, 0.3])]),
+                              ('SDR_TNP', cv.SDR_TNP, [np.array([s, 1.0]), np.array([d, 0.5]), np.array([r, 0.3])])):
+            before = [np.array(a, dtype=float).copy() for a in args]
+            try:
+                fn(*args)
+            except Exception:
+                continue
+            if any(b.shape != np.asarray(a).shape or not np.array_equal(b, np.asarray(a, dtype=float)) for a, b in zip(args, before)):
+                mutated.append(nme)
+        out['mutated'] = mutated
         return out
 
     # ------------------------------------------------------------------ model
@@ -158,6 +178,8 @@ class C13(Prop):
         at = dc_tensor(impl['aux_f2'], impl['aux_f1'])
         if not all(close(ref[i][j], at[i][j], atol=1e-7) for i in range(3) for j in range(3)):
             out.append(('aux-tensor', 'the auxiliary plane %r reconstructs a different tensor than (%r, %r, %r)' % (impl['aux'], s, d, r), None))
+        if impl.get('mutated'):
+            out.append(('purity', 'the caller\'s arrays were modified by %s' % ', '.join(impl['mutated']), None))
         for key in ('sdr_back', 'aux', 'tnp_sdr'):
             st, dp, rk = impl[key]
             if not (-1e-12 <= st < 2 * PI + 1e-12 and -1e-12 <= dp <= PI / 2 + 1e-12 and -PI - 1e-12 <= rk <= PI + 1e-12):
